@@ -1,5 +1,5 @@
 \* C16 quick: simulated histories with reweight, exact
-\* run by hand:  cd spec && tlc -workers 8 RunGenSketch.tla -config cfg/C16__RunGenSketch__simulated_histories_with_reweight_exact.cfg -simulate num=125 -depth 13 -seed 2   (root module generated by the harness: see the .tla file next to this one; copy it to spec/ first)
+\* run by hand:  cd spec && tlc -workers 8 RunGenSketch.tla -config cfg/C16__RunGenSketch__simulated_histories_with_reweight_exact.cfg -simulate num=125 -depth 13 -seed 1   (root module generated by the harness: see the .tla file next to this one; copy it to spec/ first)
 INIT GenInit
 NEXT GenNext
 CONSTANTS
